@@ -989,10 +989,15 @@ fn run_prog(env: &Env, p: &Prog) -> ProgOut {
                     out.findings.extend(judge_common(&obs, "check_predicates"));
                     out.labels.push(format!("check:{}", obs.label()));
                     let mut tx2 = tx.clone();
+                    // estimation runs with min(max_gas_per_predicate, ..) gas: bound it by the
+                    // case's gas limit (the default 100M would make every looping predicate
+                    // execute 10^8 instructions)
+                    let mut cpp = env.cpp.clone();
+                    cpp.max_gas_per_predicate = p.gas;
                     let obs = of_predicates(catch_any(|| {
                         predicates::estimate_predicates(
                             &mut tx2,
-                            &env.cpp,
+                            &cpp,
                             MemoryInstance::new(),
                             &env.world.storage,
                             NotSupportedEcal,
